@@ -194,8 +194,6 @@ Record entry := {
   e_evaluated : option N;      (* Some v: the cached object; v is its field `v` *)
   e_evaluating : bool
 }.
-Definition new_string (cid : N) : entry :=
-  {| e_cid := cid; e_string := true; e_bytes := false; e_evaluated := None; e_evaluating := false |}.
 Definition new_bytes (cid : N) : entry :=
   {| e_cid := cid; e_string := false; e_bytes := true; e_evaluated := None; e_evaluating := false |}.
 Definition with_string (en : entry) : entry :=
@@ -270,7 +268,9 @@ Definition do_load (w : world) (c : path) (st : state) : res N * state :=
   (r, add_log (EvLoad c r) st1).
 
 (* ------------------------------------------------------------------ State::import_resolved* *)
-(** `match file_cache.entry(path) { Occupied => .., Vacant => load, [utf8 check,] insert }` *)
+(** `match file_cache.entry(path) { Occupied => .., Vacant => load, insert new_bytes }` — since
+    c43636f the three import_resolved* functions insert the loaded bytes before any UTF-8
+    validation ([bin] is kept only to name the caller). *)
 Definition ensure (w : world) (bin : bool) (c : path) (st : state) : res entry * state :=
   match s_cache st c with
   | Some en => (Ok en, st)
@@ -278,10 +278,7 @@ Definition ensure (w : world) (bin : bool) (c : path) (st : state) : res entry *
     let '(r, st1) := do_load w c st in
     match r with
     | Err e => (Err e, st1)
-    | Ok cid =>
-      if bin then (Ok (new_bytes cid), set_entry c (new_bytes cid) st1)
-      else if utf8 w cid then (Ok (new_string cid), set_entry c (new_string cid) st1)
-      else (Err EUtf8, st1)                    (* no entry is inserted: the next attempt reloads *)
+    | Ok cid => (Ok (new_bytes cid), set_entry c (new_bytes cid) st1)
     end
   end.
 
@@ -512,10 +509,6 @@ Fixpoint no_start_after_done (c : path) (l : list event) : Prop :=
   | [] => True
   | e :: r => (is_start c e = true -> count (is_done c) r = O) /\ no_start_after_done c r
   end.
-
-(** the content of the regular file at canonical path [c] is valid UTF-8 *)
-Definition utf8_file (w : world) (c : path) : bool :=
-  match fs_file (w_fs w) c with Some cid => utf8 w cid | None => true end.
 
 Definition quiescent (st : state) : Prop :=
   forall c en, s_cache st c = Some en -> e_evaluating en = false.
